@@ -140,7 +140,7 @@ func (c *c13Oracle) Check(w *World, o *Obs) []Violation {
 			rc := o.presented("recovery")
 			if after.SMSPhone != "" {
 				proof := st.Kind == "sms_confirm" && code != nil && code.Known != nil && code.Known.Kind == "sms" && code.Known.Browser == st.B &&
-					code.Known.Number == after.SMSPhone && usable(code.Status)
+					code.Known.Number == after.SMSPhone && code.Status != "superseded" && code.Status != "revoked"
 				switch {
 				case !owner:
 					out = append(out, viol("C13", "sms_enabled_by_non_owner", st.Kind, o, fmt.Sprintf("SMS number of %s changed by a session with uid=%q halfauth=%q", pid, uid, o.SessBefore["halfauth"])))
@@ -161,7 +161,7 @@ func (c *c13Oracle) Check(w *World, o *Obs) []Violation {
 			} else {
 				// lenient reading for disabling: the code this session currently
 				// expects, delivered by the gateway (see DESIGN §13)
-				proof := st.Kind == "sms_remove" && (code != nil && code.Known != nil && code.Known.Kind == "sms" && code.Known.Browser == st.B && usable(code.Status) ||
+				proof := st.Kind == "sms_remove" && (code != nil && code.Known != nil && code.Known.Kind == "sms" && code.Known.Browser == st.B && code.Status != "superseded" ||
 					rc != nil && rc.Known != nil && rc.Known.Kind == "recovery" && rc.Known.Acct == a && usable(rc.Status))
 				switch {
 				case !owner:
@@ -184,7 +184,7 @@ func (c *c13Oracle) Check(w *World, o *Obs) []Violation {
 				code := o.presented("code")
 				switch st.Kind {
 				case "sms_confirm":
-					enabling = code != nil && code.Known != nil && code.Known.Kind == "sms" && code.Known.Browser == st.B && code.Known.Number == after.SMSPhone && usable(code.Status)
+					enabling = code != nil && code.Known != nil && code.Known.Kind == "sms" && code.Known.Browser == st.B && code.Known.Number == after.SMSPhone && code.Status != "superseded"
 				case "totp_confirm":
 					enabling = code != nil && after.TOTPSecretKey != "" && totpVerdict(after.TOTPSecretKey, code.Value, o.Now) != "stale"
 				}
